@@ -69,6 +69,12 @@ def analyse(K, nmodes_expected, R):
     return sym, w.min() / np.abs(w).max(), kdim, kr
 
 
+def rodrigues_(axis, th):
+    k = np.asarray(axis, float) / np.linalg.norm(axis)
+    Kx = np.array([[0, -k[2], k[1]], [k[2], 0, -k[0]], [-k[1], k[0], 0]])
+    return np.eye(3) + np.sin(th) * Kx + (1 - np.cos(th)) * Kx @ Kx
+
+
 def main():
     args = parse_args()
     rng = rng_for(args)
@@ -262,7 +268,7 @@ def main():
                     s.rho = rho
                     Ksp, _, Msp, _ = s.Get_K_C_M_F()
                 except Exception as ex:  # noqa: BLE001
-                    res.notes.append(f"beam {et} timo={timo} dim={bdim}: {type(ex).__name__}: {str(ex)[:80]}")
+                    res.fail(f"beam system raises timo={timo} dim={bdim}", f"Simulations.Beam / Get_K_C_M_F raised {type(ex).__name__}: {str(ex)[:120]}", dict(elemType=et, timoshenko=timo, dim=bdim))
                     continue
                 K, Mm = dense(Ksp), dense(Msp)
                 nrig = 3 if bdim == 2 else 6
@@ -289,6 +295,89 @@ def main():
                     if abs(tot - rho * area * L) > 1e-8 * rho * area * L:
                         res.fail(f"beam translational mass timo={timo} dim={bdim}", f"direction {cdir}: t^T M t = {tot}, expected rho A L = {rho * area * L}", ident)
                         break
+
+    # ---------------- density and heat capacity given as fields (scalar / per element / per Gauss point), also when Ne == nPg ----------------
+    from EasyFEA import MatrixType as _MT
+    for et_, a_, b_, h_ in (("TRI3", 2.0, 1.0, 0.7), ("QUAD4", 2.0, 2.0, 1.0), ("TRI6", 2.0, 1.0, 0.7), ("QUAD8", 2.0, 1.0, 0.7)):
+        mesh_ = M.mesh_2d(et_, a_, b_, h_)
+        g_ = mesh_.groupElem
+        Ne_, nPg_ = g_.Ne, g_.Get_gauss(_MT.mass).nPg
+        wJ_ = np.asarray(g_.Get_weightedJacobian_e_pg(_MT.mass))
+        rho_e = np.array([1 + rng.random() for _ in range(Ne_)])
+        c_ep = np.array([[1 + rng.random() for _ in range(nPg_)] for _ in range(Ne_)])
+        for name_, rho_, c_ in (("rho per element, c scalar", rho_e, 3.0), ("rho scalar, c per Gauss point", 2.0, c_ep), ("rho per element, c per Gauss point", rho_e, c_ep),
+                                ("rho per Gauss point, c per element", c_ep, rho_e), ("rho per element, c per element", rho_e, c_ep[:, 0].copy())):
+            ident = dict(elemType=et_, Ne=int(Ne_), nPg=int(nPg_), fields=name_, sim="thermal")
+            res.case((et_, "capacity fields", name_))
+            res.count("capacity-fields")
+            try:
+                st_ = Simulations.Thermal(mesh_, Models.Thermal(2.0, c_, thickness=0.5))
+                st_.rho = rho_
+                Cm = st_.Get_K_C_M_F()[1]
+            except Exception as ex:  # noqa: BLE001
+                res.fail(f"capacity with field coefficients raises ({name_})", f"{type(ex).__name__}: {str(ex)[:150]}", ident)
+                continue
+            full = lambda v: np.broadcast_to(np.asarray(v, float).reshape(-1, 1) if np.ndim(v) == 1 else np.asarray(v, float), (Ne_, nPg_))  # noqa: E731
+            want_ = 0.5 * float((wJ_ * full(rho_) * full(c_)).sum())
+            Cd = Cm.toarray()
+            if abs(Cd.sum() - want_) > 1e-9 * want_ or np.abs(Cd - Cd.T).max() > 1e-12 * np.abs(Cd).max():
+                res.fail(f"capacity total with field coefficients ({name_})", f"entries of C sum to {Cd.sum()}, expected the integral of rho c thickness = {want_} (Ne = {Ne_}, nPg = {nPg_})", ident)
+
+    # ---------------- thermal plates out of the (x, y) plane, inclined bars; mirrored meshes after an unrelated probing read ----------------
+    for et_ in (["TRI3", "QUAD4"] if not thorough else ["TRI3", "QUAD4", "TRI6", "QUAD8"]):
+        for scen in ("tilted plate", "mirrored plate after a point probe"):
+            mesh_ = M.mesh_2d(et_, 2.0, 1.0, 0.7)
+            if scen == "tilted plate":
+                mesh_.Rotate(35.0, (0.2, 0.1, 0.0), (1, 2, 1))
+            else:
+                mesh_.Symmetry((0.3, 0.0, 0.0), (1, 0.5, 0))
+                try:
+                    mesh_.Evaluate_dofsValues_at_coordinates(mesh_.coord[mesh_.groupElem.connect[0]].mean(0)[None, :], mesh_.coord[:, 0].copy())
+                except Exception:  # noqa: BLE001
+                    pass
+            ident = dict(elemType=et_, scenario=scen, thickness=0.25, sim="thermal")
+            res.case((et_, scen))
+            res.count("plates-in-space")
+            try:
+                st_ = Simulations.Thermal(mesh_, Models.Thermal(2.0, 3.0, thickness=0.25))
+                st_.rho = 1.5
+                Kt_, Ct_, _, _ = st_.Get_K_C_M_F()
+                Cd_ = Ct_.toarray()
+                wt_ = np.linalg.eigvalsh((Cd_ + Cd_.T) / 2)
+                if abs(Cd_.sum() - 1.5 * 3.0 * 2.0 * 0.25) > 1e-9 or wt_.min() <= 0:
+                    res.fail(f"capacity of a plate: {scen}", f"entries of C sum to {Cd_.sum()} (expected rho c area thickness = {1.5 * 3.0 * 2.0 * 0.25}), smallest eigenvalue {wt_.min():.3e}", ident)
+                lin_ = mesh_.coord @ np.array([0.3, -0.2, 0.1])
+                e_lin = float(lin_ @ (Kt_ @ lin_))
+                g3 = np.array([0.3, -0.2, 0.1])
+                if scen == "tilted plate":
+                    Q_ = rodrigues_((1, 2, 1), np.deg2rad(35.0))
+                    gt_ = g3 - (g3 @ Q_[:, 2]) * Q_[:, 2]            # tangential part of the gradient
+                else:
+                    gt_ = np.array([g3[0], g3[1], 0.0])
+                want_e = 2.0 * 0.25 * 2.0 * float(gt_ @ gt_)          # k thickness area |grad_t|^2
+                if abs(e_lin - want_e) > 1e-9 * (1 + want_e):
+                    res.fail(f"conductivity of a plate: {scen}", f"energy of a linear temperature field = {e_lin}, expected k thickness area |tangential gradient|^2 = {want_e}", ident)
+                if scen != "tilted plate":
+                    se_ = Simulations.Elastic(mesh_, Models.Elastic.Isotropic(2, E=10.0, v=0.25, planeStress=True, thickness=0.25))
+                    se_.rho = 1.5
+                    Md_ = se_.Get_K_C_M_F()[2].toarray()
+                    if abs(Md_.sum() - 2 * 1.5 * 2.0 * 0.25) > 1e-9 or np.linalg.eigvalsh((Md_ + Md_.T) / 2).min() <= 0:
+                        res.fail(f"mass of a plate: {scen}", f"entries of M sum to {Md_.sum()} (expected 2 rho area thickness = {2 * 1.5 * 2.0 * 0.25})", dict(ident, sim="elastic"))
+            except Exception as ex:  # noqa: BLE001
+                res.fail(f"plate scenario raises: {scen}", f"{type(ex).__name__}: {str(ex)[:150]}", ident)
+    for et_ in ("SEG2", "SEG3"):
+        try:
+            from EasyFEA import Mesher as _Mesher2, ElemType as _ET2
+            from EasyFEA.Geoms import Line as _Line2, Point as _Pt2
+            mb_ = _Mesher2().Mesh_Beams([Models.Beam.Isotropic(2, _Line2(_Pt2(0, 0), _Pt2(1.6, 1.2), 0.5), _Mesher2().Mesh_2D(__import__("EasyFEA").Geoms.Domain(_Pt2(), _Pt2(0.1, 0.1))), 1.0, 0.3)], elemType=_ET2(et_))
+            sb_ = Simulations.Thermal(mb_, Models.Thermal(2.0, 3.0, thickness=0.25))
+            sb_.rho = 1.5
+            Cb_ = sb_.Get_K_C_M_F()[1].toarray()
+            res.case((et_, "inclined bar"))
+            if abs(Cb_.sum() - 1.5 * 3.0 * 2.0) > 1e-9:
+                res.fail("capacity of an inclined bar", f"entries of C sum to {Cb_.sum()}, expected rho c length = {1.5 * 3.0 * 2.0} (a bar has no thickness)", dict(elemType=et_, sim="thermal", thickness=0.25))
+        except Exception as ex:  # noqa: BLE001
+            res.fail("inclined bar scenario raises", f"{type(ex).__name__}: {str(ex)[:120]}", dict(elemType=et_, sim="thermal"))
 
     answers = driver.ask(lines)
     if answers is None:
